@@ -525,8 +525,8 @@ def finish(check, pid, tier, seed, shards, errors, wall):
         return 1
     if errors:
         print("HARNESS-ERROR property=%s" % pid)
-        for e in errors[:5]:
-            print("  " + str(e)[-1500:])
+        for e in errors[:3]:
+            print("  " + str(e)[-1200:])
         return 2
     if required_missing:
         print("HARNESS-ERROR property=%s required feature classes never generated: %s" % (pid, required_missing))
